@@ -19,7 +19,7 @@ EXTENDS Naturals, Integers, Sequences
 Vocabulary == <<
    "a", "b", "1", "@E", "@Q", " ", "\n", "-", ",", ":", "<", ">", "=", "!", "'", "P", "x", "k", "g", "#", "&", "~",
    ".", "^", "$", "|", "*", "+", "?", "(", ")", "[", "]", "{", "}", "\\",
-   "(?:", "(?=", "(?!", "(?<=", "(?<!", "(?>", "(?i)", "(?x)", "(?-", "(?<n>", "(?P<n>", "(?P=n)", "(?P>n)", "(?#", "(?(", "(?(1)", "(?(<n>)", "(?", "(?i", "(?x", "(?#c)",
+   "(?:", "(?=", "(?!", "(?<=", "(?<!", "(?>", "(?i)", "(?x)", "(?-", "(?<n>", "(?P<n>", "(?P=n)", "(?P>n)", "(?#", "(?(", "(?(1)", "(?(<n>)", "(?", "(?i", "(?x", "(?#c)", "\\x{5f}", "\\u{ff}", "f",
    "\\1", "\\2", "\\k<n>", "\\k<-1>", "\\k<", "\\g<1>", "\\g", "\\K", "\\G", "\\b", "\\B", "\\A", "\\z", "\\Z", "\\h", "\\e", "\\d", "\\p{L}", "\\p", "\\x", "\\x{", "\\u",
    "[^", "[a-", "&&", "{2}", "{2,", "{,3}", "{1,2}", "99999999999", "18446744073709551615", "18446744073709551616", "{4294967296}",
    "{18446744073709551615}", "{3,18446744073709551615}", "\\k<99999999999>", "\\k<-99999999999>", "\\99999999999", "(?(99999999999)", "\\g<99999999999>"
